@@ -3,7 +3,7 @@
 # demo fails with it and passes without it.  usage: [CLEAN=1] [DEMO_FLAGS="--features verif"] confirm_seed.sh C03 A
 # CLEAN=1 forces a fresh draw / re-compiled book (cargo clean -p chess) before every build.
 ID=$1; V=$2
-W=/tmp/seed/$ID; S=$W/SEED/$V
+ROOT=${SEEDROOT:-/tmp/seed}; W=$ROOT/$ID; S=$W/SEED/$V
 cd "$W" || exit 2
 git checkout -q -- . ; rm -f tests/seed_demo*.rs
 LOG=$S/confirm.log; : > "$LOG"
